@@ -30,6 +30,8 @@ type muxBinding struct {
 	up    *xc09.Upstream
 	dead  string
 	codec *xc09.MXCodec
+	bd    *xc09.BDCodec
+	nDead int // self-deadlocks of Close()/Shutdown() seen in this process
 }
 
 type mstream struct {
@@ -52,6 +54,8 @@ type mworld struct {
 	reg     *xc09.Registry
 	streams []*mstream
 	free    []context.Context // downstream contexts whose latest attempt has ended (a retry re-uses one)
+	down    []*xc09.DownConn  // binding pool: the downstream connections (index i = down[i-1])
+	ctxDown map[context.Context]int
 	g0conn  int64
 	g0req   int64
 }
@@ -61,7 +65,7 @@ var mworldSeq int
 func newMWorld(b *muxBinding, nidx, mr int) *mworld {
 	mworldSeq++
 	mc := 0
-	if nidx > 1 {
+	if nidx > 1 && b.name == "xmux" {
 		mc = nidx // the multiplex pool keeps max_connections clients, one per index
 	}
 	cl := cluster.NewCluster(v2.Cluster{Name: fmt.Sprintf("c09-%s-%d-%d-%d", b.name, nidx, mr, mworldSeq), LbType: v2.LB_RANDOM,
@@ -73,6 +77,12 @@ func newMWorld(b *muxBinding, nidx, mr int) *mworld {
 	w.host = &xc09.Host{Host: live, Dead: dead, Reg: w.reg}
 	if b.name == "h2" {
 		w.pool = sh2.NewConnPool(newCtx(), w.host)
+	} else if b.name == "bind" {
+		w.pool = sx.NewConnPool(newCtx(), b.bd, w.host)
+		w.ctxDown = map[context.Context]int{}
+		for i := 1; i <= nidx; i++ {
+			w.down = append(w.down, &xc09.DownConn{Num: uint64(1000 + i)})
+		}
 	} else {
 		w.pool = sx.NewConnPool(newCtx(), b.codec, w.host)
 	}
@@ -113,6 +123,24 @@ func (w *mworld) slots() (out []slotObs, shutdown bool) {
 		}
 		return out, false
 	}
+	if w.b.name == "bind" {
+		bs, ok := sx.VerifBindBooks(w.pool)
+		if !ok {
+			vh.Must(fmt.Errorf("pool type %T", w.pool), "binding accessor")
+		}
+		for _, s := range bs {
+			o := slotObs{I: int(s.DownstreamID) - 1000, St: stConnected, N: s.Active}
+			if s.GoAway {
+				o.St = stGoAway
+			}
+			if c := w.reg.ByMosnID(s.ConnID); c != nil {
+				o.C = c.N
+			}
+			out = append(out, o)
+		}
+		sort.Slice(out, func(a, b int) bool { return out[a].I < out[b].I })
+		return out, false
+	}
 	sl, sd, ok := sx.VerifMuxBooks(w.pool)
 	if !ok {
 		vh.Must(fmt.Errorf("pool type %T", w.pool), "mux accessor")
@@ -145,6 +173,15 @@ func (w *mworld) obs(e vh.Ev) {
 	e["slots"], e["shut"] = sl, sd
 	e["open"], e["live"] = open, live
 	e["req"] = w.info.ResourceManager().Requests().Cur()
+	if w.b.name == "bind" {
+		dc := []int{}
+		for i, d := range w.down {
+			if d.Closed() {
+				dc = append(dc, i+1)
+			}
+		}
+		e["dclosed"] = dc
+	}
 	e["gconn"] = w.host.HostStats().UpstreamConnectionActive.Count() - w.g0conn
 	e["greq"] = w.host.HostStats().UpstreamRequestActive.Count() - w.g0req
 }
@@ -156,6 +193,7 @@ type mop struct {
 	Retry  bool   `json:"retry"`
 	S      int    `json:"s"`
 	C      int    `json:"c"`
+	I      int    `json:"i"`
 }
 type mcase struct {
 	Mr   int    `json:"mr"`
@@ -201,10 +239,28 @@ func (w *mworld) waitNotConnecting() bool {
 func (w *mworld) doNew(o mop, e vh.Ev) {
 	ctx := newCtx()
 	retried := false
-	if o.Retry && len(w.free) > 0 {
-		ctx = w.free[len(w.free)-1]
-		w.free = w.free[:len(w.free)-1]
-		retried = true
+	if o.Retry {
+		for k := len(w.free) - 1; k >= 0; k-- {
+			if w.ctxDown == nil || w.ctxDown[w.free[k]] == o.I {
+				ctx = w.free[k]
+				w.free = append(w.free[:k], w.free[k+1:]...)
+				retried = true
+				break
+			}
+		}
+	}
+	if w.ctxDown != nil {
+		if o.I < 1 || o.I > len(w.down) || w.down[o.I-1].Closed() {
+			e["res"] = "infeasible"
+			return
+		}
+		e["i"] = o.I
+		if !retried {
+			w.ctxDown[ctx] = o.I
+			_ = variable.Set(ctx, types.VariableConnectionID, w.down[o.I-1].Num)
+			_ = variable.Set(ctx, types.VariableConnection, api.Connection(w.down[o.I-1]))
+		}
+		_ = variable.Set(ctx, types.VariableUpstreamConnectionID, uint64(0))
 	}
 	e["up"], e["oneway"], e["retry"] = o.Up, o.Oneway, retried
 	e["s"], e["c"] = 0, 0
@@ -251,14 +307,23 @@ func (w *mworld) doNew(o mop, e vh.Ev) {
 			conn = w.reg.ByMosnID(id)
 		}
 	}
-	if conn == nil {
+	if conn == nil && w.b.name != "bind" { // the binding pool names the connection only when it dials it
 		vh.Must(fmt.Errorf("connection id variable not set"), "stream identity")
 	}
 	st := &mstream{id: len(w.streams) + 1, conn: conn, sender: sender, recv: rc, oneway: o.Oneway, ctx: ctx,
 		lst: &listener{destroyed: make(chan struct{})}}
 	sender.GetStream().AddEventListener(st.lst)
 	w.streams = append(w.streams, st)
-	e["s"], e["cvar"] = st.id, conn.N
+	e["s"] = st.id
+	if conn != nil {
+		e["cvar"] = conn.N
+	}
+	cn := func() int {
+		if conn != nil {
+			return conn.N
+		}
+		return 0
+	}
 	sender.AppendHeaders(ctx, w.request(o.Oneway), true)
 	select {
 	case a := <-w.b.up.Arrivals:
@@ -266,11 +331,15 @@ func (w *mworld) doNew(o mop, e vh.Ev) {
 		e["res"] = "ok"
 		if rcn := w.reg.ByLocalAddr(a.Conn.Remote); rcn != nil {
 			e["c"] = rcn.N
+			if conn == nil {
+				st.conn = rcn
+				e["cvar"] = rcn.N
+			}
 		}
 	case <-st.lst.destroyed:
-		e["res"], e["c"] = "sendfail", conn.N
+		e["res"], e["c"] = "sendfail", cn()
 	case <-time.After(opDeadline):
-		e["res"], e["c"] = "stuck", conn.N
+		e["res"], e["c"] = "stuck", cn()
 	}
 }
 
@@ -298,6 +367,24 @@ func (w *mworld) streamsOn(c *xc09.Conn) []*mstream {
 	return out
 }
 
+func (w *mworld) liveSet() []*mstream {
+	out := []*mstream{}
+	for _, s := range w.streams {
+		if !s.oneway && !s.lst.isDestroyed() {
+			out = append(out, s)
+		}
+	}
+	return out
+}
+
+func (w *mworld) endDestroyed(before []*mstream) {
+	for _, s := range before {
+		if s.lst.isDestroyed() {
+			w.ended(s)
+		}
+	}
+}
+
 func (w *mworld) apply(o mop, e vh.Ev) bool {
 	e["op"] = o.Op
 	switch o.Op {
@@ -313,6 +400,11 @@ func (w *mworld) apply(o mop, e vh.Ev) bool {
 		switch o.Op {
 		case "resp":
 			s.up.Write(w.b.wire.Response(s.wid))
+			if w.b.name == "h2" {
+				// the HTTP/2 client connection forgets the stream after the receiver callback returned: a PING
+				// behind the response is acknowledged (or the connection closed) only after that
+				s.up.Write(w.b.wire.Probe())
+			}
 			select {
 			case <-s.recv.done:
 			case <-s.lst.destroyed:
@@ -326,6 +418,14 @@ func (w *mworld) apply(o mop, e vh.Ev) bool {
 			}
 			// the stream is destroyed before the receiver is called: no further wait; a stream whose
 			// destruction did not run shows as still live in the observation
+			if w.b.name == "h2" && e["res"] == "ok" {
+				select {
+				case <-s.up.Acks:
+				case <-s.up.EOF:
+				case <-time.After(opDeadline):
+					e["res"] = "stuck"
+				}
+			}
 		case "reset":
 			s.sender.GetStream().ResetStream(types.StreamLocalReset) // synchronous
 		case "rreset":
@@ -385,6 +485,56 @@ func (w *mworld) apply(o mop, e vh.Ev) bool {
 			w.ended(s)
 		}
 		return true
+	case "dclose":
+		if o.I < 1 || o.I > len(w.down) || w.down[o.I-1].Closed() {
+			return false
+		}
+		e["i"], e["res"] = o.I, "ok"
+		before := w.liveSet()
+		w.down[o.I-1].Close(api.NoFlush, api.RemoteClose) // delivers the close event to the listeners the pool registered
+		w.endDestroyed(before)
+		return true
+	case "poolclose", "shutdown":
+		if w.b.name != "bind" {
+			break
+		}
+		// the binding pool calls back into itself while holding its mutex: watch for the self-deadlock
+		e["res"] = "ok"
+		if w.b.nDead >= 2 {
+			e["res"], e["assumed"] = "deadlock", true
+			return true
+		}
+		before := w.liveSet()
+		done := make(chan struct{})
+		go func() {
+			if o.Op == "poolclose" {
+				w.pool.Close()
+			} else {
+				w.pool.Shutdown()
+			}
+			close(done)
+		}()
+		select {
+		case <-done:
+		case <-time.After(300 * time.Millisecond):
+			first := deadlockedInClose()
+			select {
+			case <-done:
+			case <-time.After(700 * time.Millisecond):
+				if first && deadlockedInClose() {
+					e["res"] = "deadlock"
+					w.b.nDead++
+				} else if !waitCh(done) {
+					e["res"] = "stuck"
+				}
+			}
+		}
+		if e["res"] == "ok" {
+			w.endDestroyed(before)
+		}
+		return true
+	}
+	switch o.Op {
 	case "poolclose":
 		e["res"] = "ok"
 		before := map[*mstream]bool{}
@@ -444,6 +594,14 @@ func runMux(b *muxBinding, casesPath string, tr *vh.Trace, shard, shards int) {
 			if !returned {
 				e = vh.Ev{"ev": "op", "op": o.Op, "res": "stuck", "blocked": true, "s": o.S, "c": o.C}
 			} else if !feasible {
+				break
+			}
+			if e["res"] == "infeasible" {
+				break
+			}
+			if e["res"] == "deadlock" {
+				e["slots"], e["shut"], e["open"], e["live"], e["req"], e["gconn"], e["greq"], e["dclosed"] = []slotObs{}, false, []int{}, []int{}, 0, 0, 0, []int{}
+				tr.Emit(e)
 				break
 			}
 			if e["res"] == "stuck" {
